@@ -196,6 +196,27 @@ func checkFilter(c *h.Ctx, k *c10Case) {
 	} else {
 		c.Held("kept-iff-true")
 		c.Held("subsequence")
+		// the entry point that wants one item keeps the first of them, and the
+		// one that wants none says whether there is one: the condition sees
+		// all the items of its operands there too
+		if !exposesOrder(&gen.Path{Root: fchain}) {
+			ofi := h.Call("first", pf, doc, opts)
+			oex := h.Call("exists", pf, doc, opts)
+			c.Eval(2)
+			var wantFirst any
+			if len(want) > 0 {
+				wantFirst = want[0]
+			}
+			switch {
+			case ofi.Class == h.Panic || oex.Class == h.Panic:
+			case ofi.Class != h.OK || maskedList([]any{ofi.Val}) != maskedList([]any{wantFirst}):
+				c.Violate("kept-iff-true", h.F("mode", modeName(k.lax), "entry", "first"), fmt.Sprintf("First(P ?(C)) = %s; the items whose check is true: %s", ofi.Summary(), maskedList(want)), cs)
+			case k.lax && (oex.Class != h.OK || oex.Bool != (len(want) > 0)):
+				c.Violate("kept-iff-true", h.F("mode", modeName(k.lax), "entry", "exists"), fmt.Sprintf("Exists(P ?(C)) = %s; the items whose check is true: %s", oex.Summary(), maskedList(want)), cs)
+			default:
+				c.Held("kept-iff-true")
+			}
+		}
 		if c.WantSample("filter") {
 			c.Sample("filter", map[string]any{"path": ftxt, "check": pctxt, "doc": k.doc, "P-items": maskedList(items), "kept": maskedList(of.Items)})
 		}
@@ -431,6 +452,55 @@ func runC10(c *h.Ctx) {
 				}
 				root := &gen.N{K: gen.KRoot, Next: &gen.N{K: gen.KAnyArray}}
 				checkFilter(c, &c10Case{lax: lax, prefix: root, cond: cn, doc: foldDoc, vars: stdVars1})
+			}
+		}
+	}
+	// directed: conditions over operands of many items (64 and more item
+	// pairs), of one type and of mixed types, very large integers among them
+	{
+		mk := func(n int, f func(i int) string) string {
+			el := make([]string, n)
+			for i := range el {
+				el[i] = f(i)
+			}
+			return "[" + strings.Join(el, ",") + "]"
+		}
+		longDocs := []string{
+			fmt.Sprintf(`[{"l":%s,"r":%s,"k":1},{"l":%s,"r":%s,"k":2},{"l":%s,"r":%s,"k":3}]`,
+				mk(8, func(i int) string { return fmt.Sprint(i) }), mk(8, func(i int) string { return fmt.Sprint(100 + i) }),
+				mk(10, func(i int) string { return fmt.Sprint(i) }), mk(10, func(i int) string { return fmt.Sprintf("%q", fmt.Sprint(i)) }),
+				mk(9, func(i int) string { return fmt.Sprint(9007199254740993 + int64(i)*2) }), mk(9, func(i int) string { return fmt.Sprint(9007199254740992 + int64(i)*2) })),
+			fmt.Sprintf(`[{"l":%s,"r":%s,"k":1},{"l":%s,"r":%s,"k":2}]`,
+				mk(64, func(i int) string { return fmt.Sprint(i) }), mk(3, func(i int) string { return []string{`"x"`, "63", "null"}[i] }),
+				mk(70, func(i int) string { return fmt.Sprintf(`"s%d"`, i) }), mk(2, func(i int) string { return []string{"1", `"s69"`}[i] })),
+		}
+		for _, cond := range []string{"@.l[*] == @.r[*]", "!(@.l[*] == @.r[*])", "(@.l[*] == @.r[*]) is unknown", "@.l[*] != @.r[*]", "@.l[*] == @.r[*] || @.k == 2", "@.r[*] == @.l[*]", "@.l == @.r", "exists(@.l[*] ? (@ == $root[0].r[*]))"} {
+			for _, lax := range []bool{true, false} {
+				for _, d := range longDocs {
+					kk++
+					if !c.Mine(kk) {
+						continue
+					}
+					mode := ""
+					if !lax {
+						mode = "strict "
+					}
+					p, err, pan := h.ParseSafe(mode + "$[*] ? (" + strings.ReplaceAll(cond, "$root", "$") + ")")
+					if err != nil || pan != "" {
+						c.Count("gen.unparsable", 1)
+						continue
+					}
+					root := gen.FromAST(p.AST).Root
+					x := root
+					for x.Next != nil && x.Next.K != gen.KFilter {
+						x = x.Next
+					}
+					cn := x.Next.A
+					x.Next = nil
+					for _, useNum := range []bool{false, true} {
+						checkFilter(c, &c10Case{lax: lax, prefix: root.Clone(), cond: cn, doc: d, useNum: useNum, vars: stdVars1})
+					}
+				}
 			}
 		}
 	}
